@@ -27,10 +27,14 @@ class SimResult:
 
 
 def run_sim(exe, prog, mode="parallel", threads=2, ckpt=0, gvt=1000, tend=0, stats="-", displog="-",
-            trace_file=None, trace_mask=0, watchdog=20, timeout=60, ranks=1, delay=None):
+            trace_file=None, trace_mask=0, watchdog=20, timeout=60, ranks=1, delay=None, sched=None, sched_log=None):
     env = {"VERIF_WATCHDOG": str(watchdog)}
     if delay:
         env["VERIF_DELAY"] = delay
+    if sched:
+        env["VERIF_SCHED"] = sched
+        if sched_log:
+            env["VERIF_SCHED_LOG"] = sched_log
     if trace_file:
         env["VERIF_TRACE_FILE"] = trace_file
         env["VERIF_TRACE_MASK"] = str(trace_mask)
